@@ -306,9 +306,58 @@ impl World {
         }
         eff.touched.push(dst);
         if batch {
+            // inside one batch the node remembers which versions it already handled in this batch: an Empty all of
+            // whose versions were touched earlier in the batch (e.g. by a chunk) is skipped, and so is a chunk of a
+            // version an earlier Empty / complete changeset of the batch settled, or whose sequences an earlier chunk
+            // of the batch brought (process_multiple_changes, `seen`).  What was known before the batch is filtered
+            // against the state before the batch.
+            let before = self.models[dst].clone();
+            let mut seen: BTreeMap<usize, BTreeMap<u64, Option<rangemap::RangeInclusiveSet<u64>>>> = BTreeMap::new();
             for (_, origin, supplier, c, _) in &msgs {
-                self.note_delivery(dst, *origin, &c.changeset, *supplier);
                 eff.delivered.push((*origin, sim::cs_brief(c)));
+                let pre = before.get(origin);
+                let s = seen.entry(*origin).or_default();
+                let skip = match &c.changeset {
+                    Changeset::Empty { versions, .. } => {
+                        let vs = versions.start().0..=versions.end().0;
+                        let known_before = vs.clone().all(|v| pre.is_some_and(|m| m.held.contains(&v) || m.covered(v)));
+                        known_before || vs.clone().all(|v| s.contains_key(&v))
+                    }
+                    Changeset::Full { version, seqs, .. } => {
+                        let v = version.0;
+                        let known_before = pre.is_some_and(|m| m.held.contains(&v) || m.partial.get(&v).is_some_and(|p| p.gaps(&(seqs.start().0..=seqs.end().0)).next().is_none()));
+                        known_before
+                            || match s.get(&v) {
+                                Some(None) => true,
+                                Some(Some(set)) => set.gaps(&(seqs.start().0..=seqs.end().0)).next().is_none(),
+                                None => false,
+                            }
+                    }
+                    _ => false,
+                };
+                if skip {
+                    self.stats.dup_deliveries += 1;
+                    continue;
+                }
+                match &c.changeset {
+                    Changeset::Empty { versions, .. } => {
+                        for v in versions.start().0..=versions.end().0 {
+                            s.insert(v, None);
+                        }
+                    }
+                    Changeset::Full { version, seqs, last_seq, .. } => {
+                        if seqs.start().0 == 0 && seqs.end() == last_seq {
+                            s.insert(version.0, None);
+                        } else {
+                            let e = s.entry(version.0).or_insert_with(|| Some(pre.and_then(|m| m.partial.get(&version.0).cloned()).unwrap_or_default()));
+                            if let Some(set) = e {
+                                set.insert(seqs.start().0..=seqs.end().0);
+                            }
+                        }
+                    }
+                    _ => {}
+                }
+                self.note_delivery(dst, *origin, &c.changeset, *supplier);
             }
             let src = if msgs.iter().any(|m| m.4) { ChangeSource::Sync } else { ChangeSource::Broadcast };
             self.nodes[dst].deliver(msgs.into_iter().map(|m| m.3).collect(), src).await.map_err(|e| Fail::new("ingest-batch-succeeds", e.0))?;
@@ -622,7 +671,9 @@ impl World {
         let st = self.nodes[node].sync_state().await;
         for (origin, m) in &self.models[node] {
             let actor = self.actor(*origin);
-            sim::check_advertised(&st, actor, m, *origin == node).map_err(|(clause, msg)| Fail::new(&clause, format!("node {node} about node {origin}: {msg}")))?;
+            sim::check_advertised(&st, actor, m, *origin == node).map_err(|(clause, msg)| {
+                Fail::new(&clause, format!("node {node} about node {origin}: {msg} [model: last_seq declarations {:?}, undetermined {:?}, partial {:?}]", m.last_seqs, m.undetermined, m.partial.keys().collect::<Vec<_>>()))
+            })?;
         }
         for a in st.heads.keys() {
             let o = self.actor_idx.get(a);
@@ -672,7 +723,15 @@ impl World {
                 part.sort();
                 (need, part)
             };
-            let (l, r) = (norm(&live), norm(&reloaded));
+            let (mut l, mut r) = (norm(&live), norm(&reloaded));
+            // suppliers that declared different last_seq for a version leave the node with one declaration in memory
+            // and possibly another one in a persisted row: no demand about such a version (DESIGN.md §6.2)
+            {
+                let m = &self.models[node][origin];
+                let undecided = |v: u64| m.l_conflict(v) || m.ambiguous(v) || m.undetermined.contains(&v);
+                l.1.retain(|(v, _)| !undecided(*v));
+                r.1.retain(|(v, _)| !undecided(*v));
+            }
             ensure!(l.0 == r.0, "durable-need", "node {node} about node {origin}: live need {:?}, persisted need {:?}", l.0, r.0);
             ensure!(l.1 == r.1, "durable-partial-need", "node {node} about node {origin}: live partial_need {:?}, persisted {:?}", l.1, r.1);
         }
